@@ -28,7 +28,7 @@ CertKinds == {<<[f |-> "cert0.wCertificateType", v |-> t], [f |-> "cert0.dwLengt
 Alias == {<<[f |-> "sections.alias", v |-> v]>> : v \in {"1", "2", "16", "200", "1500"}}   \* that many further section headers claim the raw data of section 0
 Classes == Single \cup Trunc \cup CertEnd \cup CertKinds \cup Alias \cup (IF Tier = "t" THEN Pairs ELSE {p \in Pairs : p[1].v = "HUGE" \/ p[2].v = "HUGE"})
 Init == /\ done = FALSE
-        /\ \/ \E o \in ManySigs : cfg = [base |-> "manysigs64", overrides |-> o]
+        /\ \/ \E o \in ManySigs, b \in {"manysigs64", "manysigsA64"} : cfg = [base |-> b, overrides |-> o]
            \/ \E b \in Bases, o \in Classes : cfg = [base |-> b, overrides |-> o]
 Next == ~done /\ done' = TRUE /\ UNCHANGED cfg
 Emit == done => PrintT(ToJson(cfg))
